@@ -324,7 +324,10 @@ func (s *Server) Session(strm signaling.SRPCSignaling_SessionStream) error {
 		currUserped := currLocalPeer != ourPeerTkr
 		var currOpen *uint64
 		if currRemotePeer != nil {
-			currOpen = &sess.seqno
+			// copy the value: the epoch is compared by value below and must not
+			// be read again after the lock is released.
+			currSeqno := sess.seqno
+			currOpen = &currSeqno
 		}
 		waitCh = sess.getWaitCh()
 
@@ -351,8 +354,10 @@ func (s *Server) Session(strm signaling.SRPCSignaling_SessionStream) error {
 			return signaling.ErrUserpedSession
 		}
 
-		// Send the opened or closed message if opened or closed.
-		if prevSentOpenToLocal != currOpen {
+		// Send the opened or closed message if opened, closed, or re-opened with a new epoch.
+		openChanged := (prevSentOpenToLocal == nil) != (currOpen == nil) ||
+			(prevSentOpenToLocal != nil && currOpen != nil && *prevSentOpenToLocal != *currOpen)
+		if openChanged {
 			var err error
 			if currOpen != nil {
 				err = strm.Send(&signaling.SessionResponse{
